@@ -9,6 +9,11 @@ from .common import REG, CAL_FIELDS, NUM_FIELDS, STR_FIELDS, CAL_RANGES, k_vinfo
 ALL_FIELDS = tuple(version.V2VersionInfo._fields)
 RESETTABLE = tuple(version.V2_FIELD_INITIAL_VALUES.keys())
 
+# README ("resettable part ... MAJOR, MINOR, PATCH, NUM, INC0 to 0, INC1 to 1"); written from the
+# property statement, NOT read from version.V2_FIELD_INITIAL_VALUES, so that an edit of the table is seen
+INITIAL_INT = {"major": 0, "minor": 0, "patch": 0, "num": 0, "inc0": 0, "inc1": 1}
+assert set(INITIAL_INT) == set(RESETTABLE), "resettable fields changed: contracts need review"
+
 # --------------------------------------------------------------------------- cal_info
 # Contract used by callers. The body is decided by complete enumeration of
 # datetime.date (X, checks/c14), not by the symbolic executor: strftime is a
@@ -148,7 +153,7 @@ def _reset_on_yield(a, v, st):
     st.ghost["yielded"] = y
     bad = st.ghost.get("yield_bad", False)
     # every yielded pair carries the documented initial value of that field
-    ok = b_or(*[b_and(v_eq(fld, f), v_eq(initial, version.V2_FIELD_INITIAL_VALUES[f])) for f in RESETTABLE])
+    ok = b_or(*[b_and(v_eq(fld, f), v_eq(initial, str(INITIAL_INT[f]))) for f in RESETTABLE])
     st.ghost["yield_bad"] = b_or(bad, b_not(ok))
 
 
@@ -190,7 +195,7 @@ def _reset_items_callee(ex, gen, st, node, consume=None):
     env = ex.bind_args(gen.fr, gen.args, gen.kwargs)
     a = Args(env)
     present = {f: right_of_change(a, f) for f in RESETTABLE}
-    value = {f: version.V2_FIELD_INITIAL_VALUES[f] for f in RESETTABLE}
+    value = {f: str(INITIAL_INT[f]) for f in RESETTABLE}
     return FDict(present, value)
 
 
@@ -198,7 +203,6 @@ c.as_dict = _reset_items_callee
 
 
 # --------------------------------------------------------------------------- _reset_rollover_fields
-INITIAL_INT = {f: int(v) for f, v in version.V2_FIELD_INITIAL_VALUES.items()}
 
 
 def spec_reset(a_fields_args, old, cur, res):
@@ -302,3 +306,228 @@ c.exsures(
     "C05+C17._incr_numeric.overflow_only_at_documented_maximum",
     lambda a, exc, cx: b_and(s_allnines(field(a.cur_vinfo, "bid")), v_cmp(">=", s_int(field(a.cur_vinfo, "bid")), 1000)),
 )
+
+
+# --------------------------------------------------------------------------- is_valid_week_pattern
+def spec_valid_week(p):
+    """C14: calendar year with ISO week, or ISO year with Monday/Sunday week, is rejected."""
+    has = lambda parts: b_or(*[v_contains(x, p) for x in parts])
+    yy, ww = has(["YYYY", "YY", "0Y"]), has(["WW", "0W", "UU", "0U"])
+    gg, vv = has(["GGGG", "GG", "0G"]), has(["VV", "0V"])
+    return b_not(b_or(b_and(yy, vv), b_and(gg, ww)))
+
+
+c = REG.new("bumpver.v2version.is_valid_week_pattern")
+c.param("raw_pattern", KStr())
+c.returns(KBool())
+c.ensures("C14.is_valid_week_pattern.rejects_incoherent_year_week_pairs", lambda a, res, cx: b_iff(v_truthy(res), spec_valid_week(a.raw_pattern)))
+
+
+# --------------------------------------------------------------------------- parse_version_info / format_version (as seen by callers)
+def rec_terms(rec):
+    """Flatten a V2VersionInfo/V2CalendarInfo into z3 terms (optionals as two terms)."""
+    out = []
+    for f in (rec.fields if isinstance(rec, SRec) else rec._asdict()):
+        v = field(rec, f)
+        if f in CAL_FIELDS:
+            if v is None:
+                out += [z3.BoolVal(True), z3.IntVal(0)]
+            elif isinstance(v, SOpt):
+                out += [v.isnone, z3.If(v.isnone, z3.IntVal(0), V.z3int(v.val))]
+            else:
+                out += [z3.BoolVal(False), V.z3int(v)]
+        elif f in NUM_FIELDS:
+            out.append(V.z3int(v))
+        elif f == "tag":
+            if isinstance(v, SEnum):
+                out.append(v.idx)
+            elif isinstance(v, str):
+                out.append(z3.IntVal(sorted(version.PEP440_TAG_BY_TAG).index(v)))
+            else:
+                # guarded tag value: index via if-then-else
+                dom = sorted(version.PEP440_TAG_BY_TAG)
+                t = z3.IntVal(0)
+                for g, x in V.as_guards(v):
+                    t = z3.If(V.to_z3_bool(g), _tag_index(x, dom), t)
+                out.append(t)
+        else:
+            out.append(V.z3str(v))
+    return out
+
+
+def _tag_index(x, dom):
+    if isinstance(x, SEnum):
+        if x.domain == tuple(dom):
+            return x.idx
+        t = z3.IntVal(0)
+        for i, d in enumerate(x.domain):
+            if d is not None:
+                t = z3.If(x.idx == i, z3.IntVal(dom.index(d)), t)
+        return t
+    return z3.IntVal(dom.index(x))
+
+
+_VINFO_SORTS = []
+for _f in ALL_FIELDS:
+    if _f in CAL_FIELDS:
+        _VINFO_SORTS += [z3.BoolSort(), z3.IntSort()]
+    elif _f in NUM_FIELDS or _f == "tag":
+        _VINFO_SORTS.append(z3.IntSort())
+    else:
+        _VINFO_SORTS.append(z3.StringSort())
+FMT = z3.Function("spec_format_version", *(_VINFO_SORTS + [z3.StringSort(), z3.StringSort()]))
+# PARSED_<field>(version, pattern): the record parse_version_info returns is a function of its arguments
+_PARSED = {}
+for _f, _srt in zip(ALL_FIELDS, [None] * len(ALL_FIELDS)):
+    pass
+
+
+def parsed_eq(res, version_str, raw_pattern):
+    """res is the (unique) record that parse_version_info(version_str, raw_pattern) returns."""
+    vs, ps = V.z3str(version_str), V.z3str(raw_pattern)
+    terms = rec_terms(res)
+    cs = []
+    for i, (t, srt) in enumerate(zip(terms, _VINFO_SORTS)):
+        fn = z3.Function(f"spec_parsed_{i}", z3.StringSort(), z3.StringSort(), srt)
+        cs.append(fn(vs, ps) == t)
+    return z3.And(*cs)
+
+
+ACCEPTS = z3.Function("spec_accepts", z3.StringSort(), z3.StringSort(), z3.BoolSort())  # accepts(pattern, version)
+
+import re as _re  # noqa: E402
+
+c = REG.new("bumpver.v2version.parse_version_info")
+c.param("version_str", KStr())
+c.param("raw_pattern", KStr())
+c.returns(k_vinfo(version))
+c.ensures("C02.parse_version_info.result_wf", lambda a, res, cx: wf_vinfo(version, res))
+c.ensures("C02.parse_version_info.function_of_arguments", lambda a, res, cx: parsed_eq(res, a.version_str, a.raw_pattern))
+c.ensures("C01.parse_version_info.returns_only_if_accepted", lambda a, res, cx: ACCEPTS(V.z3str(a.raw_pattern), V.z3str(a.version_str)))
+c.exsures(version.PatternError, "C01.parse_version_info.pattern_error_iff_not_accepted", lambda a, exc, cx: z3.Not(ACCEPTS(V.z3str(a.raw_pattern), V.z3str(a.version_str))))
+c.exsures(_re.error)  # malformed pattern text (unbalanced brackets): re.compile fails
+c.exsures(ValueError)
+c.trusted = "callers' view; the body is verified separately (contracts/v2version_parse.py) against the regex-match model A-re"
+
+
+def _fmt_effects(a, st, outcome):
+    st.emit("Format", a.vinfo, a.raw_pattern)
+
+
+c = REG.new("bumpver.v2version.format_version")
+c.param("vinfo", k_vinfo(version))
+c.param("raw_pattern", KStr())
+c.returns(KStr())
+c.effects = _fmt_effects
+c.ensures("C02.format_version.function_of_arguments", lambda a, res, cx: V.z3str(res) == FMT(*(rec_terms(a.vinfo) + [V.z3str(a.raw_pattern)])))
+c.exsures(ValueError)  # unbalanced brackets in the pattern (_parse_segtree)
+c.trusted = "callers' view (uninterpreted rendering function); rendering itself is C02"
+
+
+# --------------------------------------------------------------------------- incr
+def _calinfo_effects(a, st, outcome):
+    pass
+
+
+def _formatted_record(cx):
+    evs = [e for e in cx.new if e[0] == "Format"]
+    return evs[-1][1] if evs else None
+
+
+def _incr_ghost(cx, key):
+    return cx.ghost.get(key)
+
+
+def _incr_setup(a, st):
+    pass
+
+
+def _incr_base(old, R):
+    f = dict(old.fields)
+    for cf in CAL_FIELDS:
+        f[cf] = field(R, cf)
+    return SRec(version.V2VersionInfo, f)
+
+
+class _IncrArgs:
+    pass
+
+
+def _incr_numeric_view(a, old, R):
+    v = _IncrArgs()
+    v.raw_pattern, v.old_vinfo, v.cur_vinfo = a.raw_pattern, old, _incr_base(old, R)
+    v.major, v.minor, v.patch, v.tag, v.tag_num, v.pin_increments = a.major, a.minor, a.patch, a.tag, a.tag_num, a.pin_increments
+    return v
+
+
+def _incr_clause(kind, idx=None):
+    def fn(a, res, cx):
+        if res is None:
+            return True
+        R = _formatted_record(cx)
+        parsed = [e for e in cx.new if e[0] == "CallResult" and e[1] == "bumpver.v2version.parse_version_info"]
+        today = [e for e in cx.new if e[0] == "CallResult" and e[1] == "bumpver.v2version.cal_info"]
+        if R is None or not parsed:
+            return False  # a version was returned without parsing the old one / rendering a record
+        old = parsed[-1][2]
+        notnone = b_not(v_is_none(res))
+        if kind == "pinned":
+            return b_implies(b_and(notnone, v_truthy(a.pin_date)), b_and(*[b_implies(b_not(v_is_none(field(old, f))), v_eq(field(R, f), field(old, f))) for f in CAL_FIELDS]))
+        if kind == "never_backwards":
+            return b_implies(notnone, spec_cal_ge(R, old))
+        if kind == "from_date":
+            if not today:
+                return b_implies(notnone, v_truthy(a.pin_date))
+            td = today[-1][2]
+            return b_implies(
+                b_and(notnone, b_not(v_truthy(a.pin_date))),
+                b_ite(spec_cal_gt(old, td), same_fields(R, old, CAL_FIELDS), same_fields(R, td, CAL_FIELDS)),
+            )
+        if kind == "numeric":
+            v = _incr_numeric_view(a, old, R)
+            pre = spec_pre_reset(v, field(R, "bid"))
+            fa = _FieldsArgs(pattern_fields(a.raw_pattern), old, pre)
+            return b_implies(notnone, spec_reset(fa, old, pre, R)[idx])
+        if kind == "build":
+            return b_implies(notnone, v_cmp(">", s_int(field(R, "bid")), s_int(field(old, "bid"))))
+        if kind == "rendered":
+            return b_implies(notnone, V.z3str(res) == FMT(*(rec_terms(R) + [V.z3str(a.raw_pattern)])))
+        raise KeyError(kind)
+
+    return fn
+
+
+c = REG.new("bumpver.v2version.incr")
+c.param("old_version", KStr())
+c.param("raw_pattern", KStr())
+c.param("major", KBool())
+c.param("minor", KBool())
+c.param("patch", KBool())
+c.param("tag", KEnum((None,) + TAG_VALUES))
+c.param("tag_num", KBool())
+c.param("pin_increments", KBool())
+c.param("pin_date", KBool())
+c.param("maybe_date", KOpt(KInt()))  # a date is only passed on to cal_info: modelled as an opaque ordinal
+c.returns(KOpt(KStr()))
+c.record_calls = True
+c.ensures("C01.incr.none_or_nonempty_and_changed", lambda a, res, cx: b_or(v_is_none(res), b_and(v_ne(res, ""), v_ne(res, a.old_version))))
+c.ensures("C14.incr.incoherent_week_pattern_gives_no_version", lambda a, res, cx: b_implies(b_not(spec_valid_week(a.raw_pattern)), v_is_none(res)))
+c.ensures("C05.incr.pinned_calendar_parts_unchanged", _incr_clause("pinned"))
+c.ensures("C05+C14.incr.calendar_never_moves_backwards", _incr_clause("never_backwards"))
+c.ensures("C05.incr.calendar_from_date_unless_version_is_in_future", _incr_clause("from_date"))
+for _i, _f in enumerate(ALL_FIELDS):
+    if _f in CAL_FIELDS or _f == "bid":
+        continue
+    c.ensures(f"C05.incr.{_f}_follows_readme_rule", _incr_clause("numeric", _i))
+c.ensures("C05+C17.incr.build_strictly_increased", _incr_clause("build"))
+c.ensures("C05.incr.result_is_rendering_of_that_record", _incr_clause("rendered"))
+c.ensures(
+    "C05.incr.tag_num_needs_a_tag",
+    lambda a, res, cx: b_implies(
+        b_and(v_truthy(a.tag_num), v_is_none(a.tag), *[v_eq(field(e[2], "tag"), "final") for e in cx.new if e[0] == "CallResult" and e[1] == "bumpver.v2version.parse_version_info"][-1:]),
+        v_is_none(res),
+    ),
+)
+c.exsures(OverflowError)  # BUILD at its documented maximum (C17)
+c.exsures(ValueError)  # malformed pattern
+c.exsures(_re.error)
